@@ -290,4 +290,41 @@ Section Term.
     - rewrite universe_length. cbn [length]. lia.
     - exists s. split; [exact Hs|]. split; [exact HS|]. split; [exact HN|]. split; [exact HP | exact HM].
   Qed.
+
+  (* whatever the fuel: if the loop returns, the invariants hold of its final state *)
+  Lemma sweeps_inv : forall fuel order s s',
+    (forall u, In u order -> In u (seq 0 n)) -> SI s -> NI s ->
+    sweeps fuel g m res (successors g) (predecessors g) order s = Ok s' ->
+    SI s' /\ NI s' /\ PhiS s <= PhiS s'.
+  Proof.
+    induction fuel as [|f IH]; intros order s s' Hord HS HN H; cbn [sweeps] in H; [discriminate|].
+    fold (reset s) in H.
+    assert (HSr : SI (reset s)) by exact HS. assert (HNr : NI (reset s)) by exact HN.
+    destruct (sweep_num order (reset s) Hord HSr HNr) as [s1 [Hf [HS1 [HN1 Hcase]]]].
+    rewrite Hf in H. cbn [bind] in H. cbn [reset ls_moves ls_inner ls_node2com ls_improved] in Hcase.
+    assert (HP1 : PhiS s <= PhiS s1).
+    { destruct Hcase as [[_ [I1 _]]|[_ [_ [_ P1]]]]; cbn beta in *; [rewrite I1; apply Qle_refl | lra]. }
+    destruct (Nat.eqb (ls_moves s1) 0).
+    - inversion H. subst s'. split; [exact HS1|]. split; [exact HN1 | exact HP1].
+    - destruct (IH order s1 s' Hord HS1 HN1 H) as [HS' [HN' HP']]. split; [exact HS'|]. split; [exact HN'|].
+      cbn beta in *. lra.
+  Qed.
+
+  Theorem compute_one_level_state_inv : forall fuel partition perms s,
+    length partition = n ->
+    (forall c p, nth_error partition c = Some p -> NoDup p /\ forall x, In x p <-> In x (attr_of g c)) ->
+    compute_one_level_state fuel g m partition res perms = Ok s ->
+    SI s /\ NI s /\ Phi g m res dirg singletons <= PhiS s.
+  Proof.
+    intros fuel partition perms s Hlen Hpart H. unfold compute_one_level_state in H.
+    destruct (degree_info_start partition Hlen) as [di [Hdi HNI]]. rewrite Hdi in H. cbn [bind] in H.
+    apply bind_ok in H. destruct H as [order [Hshuf H]].
+    unfold map_node_names_to_hashsets in H. fold (gnames g) in H.
+    rewrite (sort_by_perm_seq (gnames g) n names_perm) in H.
+    apply (sweeps_inv fuel order _ s) in H.
+    - exact H.
+    - intros u Hu. apply Hnames. apply (shuffled_in_names g perms order Hshuf u Hu).
+    - unfold SInvS. cbn [ls_partition ls_inner ls_node2com]. apply SInv_start; assumption.
+    - exact HNI.
+  Qed.
 End Term.
